@@ -167,7 +167,8 @@ class P:
         if len(io) != len(mo): return "history length"
         for a, b in zip(io, mo):
             if a.startswith(("OK:", "ERR", "PANIC")) and ":L[" in a:
-                eq, _ = values.exec_equal(a, b)
+                eq, abst = values.exec_equal(a, b)
+                if abst: return None      # the model abstained (known dependency class): the rest of this history is not comparable
                 if not eq: return "exec result after history"
             elif a != b: return "parse result after history"
         return None
